@@ -1783,6 +1783,38 @@ func c12R3(c *Ctx) {
 				}
 			}
 		}
+		viaHelper := false
+		if len(fstops) == 0 {
+			// the loop over the nodes may live in a helper of the same package: its call stands for the loop
+			for _, b := range fn.Blocks {
+				for _, in := range b.Instrs {
+					ci, ok := in.(ssa.CallInstruction)
+					if !ok {
+						continue
+					}
+					h := ci.Common().StaticCallee()
+					if h == nil || h.Pkg != fn.Pkg || len(h.Blocks) == 0 {
+						continue
+					}
+					inLoop := false
+					for _, hb := range h.Blocks {
+						for _, hin := range hb.Instrs {
+							if hc, ok := hin.(ssa.CallInstruction); ok && hc.Common().IsInvoke() && hc.Common().Method.Name() == "ForceStop" {
+								for _, l := range kit.Loops(h) {
+									if l.Contains(hin) && len(l.EarlyExits()) == 0 {
+										inLoop = true
+									}
+								}
+							}
+						}
+					}
+					if inLoop {
+						fstops = append(fstops, in)
+						viaHelper = true
+					}
+				}
+			}
+		}
 		if len(fstops) == 0 {
 			c.R.Fail(r, "v1 stopForceful: node ForceStop", c.Pos(fn.Pos()), "no ForceStop call on nodes")
 		}
@@ -1791,6 +1823,12 @@ func c12R3(c *Ctx) {
 		// already dying still has nodes blocked in plugin calls that only end when their connector context is
 		// cancelled by ForceStop)
 		for _, fs := range fstops {
+			if viaHelper {
+				for _, ret := range kit.Returns(fn) {
+					c.R.Check(kit.InstrDominates(fs, ret), r, "v1 stopForceful: every exit force-stops the nodes", c.Pos(posOf(ret)), "behind the node loop (helper)", "stopForceful can return without force-stopping the nodes", true)
+				}
+				continue
+			}
 			h := fs.Block()
 			for h != nil {
 				back := false
